@@ -143,8 +143,8 @@ def renderHops (st : ClState) (es : Entries TLink) (dst : Nat) : List Hop → Op
     | _, _ => none
 
 /-- `TorusZone::get_local_route(src, dst)` for two leaves: `none` = the C++ throws (`.at`) or does not terminate -/
-def Torus.route (t : Torus) (src dst : Nat) : Option (List TLink) :=
-  let (st, es) := t.seal
+def Torus.routeWith (t : Torus) (se : ClState × Entries TLink) (src dst : Nat) : Option (List TLink) :=
+  let (st, es) := se
   if src = dst ∧ st.hasLb then
     -- `if (src->id() == dst->id() && has_loopback()) { uplink = get_uplink_from(node_pos(src->id())); ...; return; }`
     (es.uplinkFrom (st.nodePos src)).map ([·])
@@ -152,6 +152,8 @@ def Torus.route (t : Torus) (src dst : Nat) : Option (List TLink) :=
     match t.hops src dst with
     | none => none
     | some hs => renderHops st es dst hs
+
+def Torus.route (t : Torus) (src dst : Nat) : Option (List TLink) := t.routeWith t.seal src dst
 
 /-- link names as printed by Link::get_name(): zone name `z`; split-duplex adds `_UP` / `_DOWN` -/
 def TLink.name (dims : List Nat) (split : Bool) : TLink → String
